@@ -16,6 +16,9 @@ let commits : (int, int) Hashtbl.t = Hashtbl.create 16
 let rec_ts : int list ref = ref []
 let rec_max = ref 0
 let no_macro = ref false
+let with_close = ref false
+let cacts : cact list ref = ref []
+let ncok = ref 0
 let stack : (state * int) list ref = ref [ (init_state, 0) ]
 let case_id = ref ""
 let case_spec = ref ""
@@ -130,6 +133,7 @@ let apply (s : state) (used : int) (op : string) : state * int * string * string
       let r = String.concat "" (List.map (fun j -> if !cur.pc j = TDone then "D" else "L") wl0) in
       (!cur, used, r, [])
   | 't' -> (ex s LTrig, used, "-", [])
+  | 'x' -> (ex s LClose, used, "-", [])
   | 'c' ->
       (match String.split_on_char ':' arg with
        | [a; t] ->
@@ -155,6 +159,7 @@ let enabled (s : state) (used : int) : string list =
    | SWake _ -> add "w"; if not !no_macro then (add "V"; add "W")
    | SRun _ -> add "w"; if not !no_macro then add "V"
    | STrig -> add "t");
+  if !with_close && not s.gl.closed then add "x";
   if used < !rec_max then
     for sl = 0 to !nslots - 1 do
       List.iter (fun t -> add (Printf.sprintf "c%d:%d" sl t)) !rec_ts
@@ -268,11 +273,12 @@ let () =
     | "CASE" :: id :: spec :: _ ->
         case_id := id; case_spec := spec;
         Hashtbl.reset sf_tab; Hashtbl.reset commits; Hashtbl.reset auto; ntx := 0; stack := [ (init_state, 0) ]; ops := [];
-        rec_ts := []; rec_max := 0; no_macro := false; nslots := 1;
+        rec_ts := []; rec_max := 0; no_macro := false; with_close := false; cacts := []; nslots := 1;
         List.iter (fun f -> match String.split_on_char '=' f with
           | ["rec"; v] -> rec_ts := List.filter_map (fun x -> if x = "" then None else Some (int_of_string x)) (String.split_on_char ',' v)
           | ["recmax"; v] -> rec_max := int_of_string v
           | ["nomacro"; v] -> no_macro := (v = "1")
+          | ["close"; v] -> with_close := (v = "1")
           | _ -> ()) (String.split_on_char ';' spec);
         bump ("case:" ^ (List.hd (String.split_on_char '-' id)))
     | "NS" :: v :: _ -> nslots := int_of_string v
@@ -292,6 +298,16 @@ let () =
              let ms = List.map (fun k -> i_of_n (sf k)) lk.lkeys in
              if ms <> parse slots then mismatch "genlock-slots" line (ints ms)
          | None -> mismatch "start-disabled" line "")
+    | "CA" :: "lock" :: i :: st :: _ -> cacts := CLock (nat_of_int (int_of_string i), n_i (int_of_string st)) :: !cacts
+    | "CA" :: "ret" :: i :: b :: _ -> cacts := CRet (nat_of_int (int_of_string i), b = "1") :: !cacts
+    | "CA" :: "unlock" :: i :: c :: _ -> cacts := CUnlock (nat_of_int (int_of_string i), n_i (int_of_string c)) :: !cacts
+    | "END" :: _ when !cacts <> [] ->
+        (* the caller contract, checked with the extracted client_okb on the client actions of the real consumer *)
+        if client_okb (List.rev !cacts) then incr ncok
+        else begin incr pfail;
+          print_endline (String.concat "\t" ["PROPFAIL"; "P"; "client_ok"; !case_id; !case_spec; String.concat " " (List.rev !ops);
+            "the client actions observed on the real consumer (Lock / return / UnLock) violate the caller contract client_ok (extracted client_okb = false): a lock that returned was not handed back, or a commit ts was set on a stale lock"]) end;
+        cacts := []
     | "AUTO" :: i :: _ -> Hashtbl.replace auto (int_of_string i) ()
     | "TS" :: i :: st :: cm :: keys :: _ ->
         let ii = int_of_string i in
@@ -339,5 +355,5 @@ let () =
     | "P" :: _ -> incr pfail; print_endline ("PROPFAIL\t" ^ line)
     | ("PS" | "TOTAL" | "STRESS") :: _ -> print_endline line
     | _ -> ());
-  Printf.printf "STATS\tedges=%d\tenabled_sets=%d\tmismatches=%d\tpropfails=%d\n" !nedges !nen !mism !pfail;
+  Printf.printf "STATS\tedges=%d\tenabled_sets=%d\tmismatches=%d\tpropfails=%d\tclient_ok_traces=%d\n" !nedges !nen !mism !pfail !ncok;
   Hashtbl.iter (fun k v -> Printf.printf "COUNT\t%s\t%d\n" k v) counts
